@@ -395,7 +395,7 @@ def exec : Nat → Work → M Ret
           | .sysClose c' e => if c' != c then throw s!"expected close {c}" else pure e
           | t => mismatch s!"sys close {c}" t)
         modConn c fun x => { x with fdOpen := false }
-        if e0 != "nil" || e1 != "nil" then pure { code := .err }
+        if e0 != "nil" || e1 != "nil" then pure { code := .err, errName := "other" }
         else exec fuel (.handleAction c r.n)
     | .closeFlush c => do
       let x ← getConn c
